@@ -61,7 +61,24 @@ def in_alphabet(v) -> bool:
     return isinstance(v, tuple) and len(v) == 2 and isinstance(v[0], str) and type(v[1]) is int and v[1] >= 0
 
 
+_CVAL = {}
+
+
 def cval(v) -> str:
+    """memoised `_cval` (the exhaustive streams print the same few values millions of times)"""
+    try:
+        key = (v.__class__, v)
+        r = _CVAL.get(key)
+    except TypeError:  # unhashable: outside the alphabet anyway
+        return _cval(v)
+    if r is None:
+        if len(_CVAL) > 200000:
+            _CVAL.clear()
+        r = _CVAL[key] = _cval(v)
+    return r
+
+
+def _cval(v) -> str:
     if v is None:
         return "N"
     if isinstance(v, bool):
@@ -80,7 +97,19 @@ def cval(v) -> str:
 _SAFE = set("ABCDEFGHIJKLMNOPQRSTUVWXYZabcdefghijklmnopqrstuvwxyz0123456789_.-")
 
 
+_CKEY = {}
+
+
 def ckey(k: str) -> str:
+    r = _CKEY.get(k)
+    if r is None:
+        if len(_CKEY) > 200000:
+            _CKEY.clear()
+        r = _CKEY[k] = _ckey(k)
+    return r
+
+
+def _ckey(k: str) -> str:
     """injective ASCII token for an attribute key (the model only compares keys: `String` equality; an encoded key
     is never one of the nine member names because it contains `%`): unsafe characters as %XXXXXX, the empty key as %"""
     if k == "":
@@ -335,7 +364,7 @@ class Oracle:
         self.ctx.count(f"oracle-failure:{kind}")
         self.nfail += 1
         if len(self.ctx.failures) < 200:  # keep the first (shortest) ones, count the rest
-            inp = {"history": self.history[: self.n + 1], "stream": "ok"}
+            inp = {"history": [op_json(o) for o in self.history[: self.n + 1]], "stream": "ok"}
             if self.given_watch:
                 inp["watch"] = self.given_watch[:64]
             if self.tag:
@@ -412,7 +441,7 @@ class Oracle:
             else:
                 okres = (raw is None) if not op[3] else (raised and type(raw).__name__ == "AttributeError")
                 if not okres:
-                    self.fail("wrong-record", "lookup of an unseen address without auto-create returned something", expected="None / AttributeError with a patch", actual=str(raw))
+                    self.fail("wrong-record", "lookup of an unseen address without auto-create returned something", expected="None / AttributeError with a patch", actual=impl_error(raw) if raised else sut.res(raw))
             # same address -> same object, same id (no address_in assignment in between)
             if target is not None:
                 prev = self.last_for_addr.get(op[1])
@@ -438,7 +467,7 @@ class Oracle:
             for i in diff:
                 if i < len(snap1) and i < len(exp):
                     a1, a0 = snap1[i][1], exp[i][1]
-                    for k in list(a1.keys() | a0.keys()):
+                    for k in dict.fromkeys(list(a0) + list(a1)):
                         if (k not in a1 or k not in a0 or a1[k] != a0[k]) and len(self.suspects) < 40:
                             for nk in named_keys(op):
                                 if nk != k:
@@ -615,15 +644,13 @@ def run_sequence(ctx, ops, pairs, stream, dump_every=0, watch=(), probe=(), tag=
         history = []
         oracle = Oracle(oracle_ctx or ctx, sut, history, watch, tag) if stream == "ok" else None
         local = [("reset", "ok")]
-        in_model = pairs is not None
         for n, op in enumerate(ops):
             op = resolve(sut, op)
             if op is None:
                 return False
             if stream == "ok" and violates_pre(sut, op):
                 return False
-            history.append(op_json(op))
-            in_model = in_model and modelled(op)
+            history.append(op)
             if oracle:
                 oracle.before(op)
             line, out, raw = sut.apply(op)
@@ -637,14 +664,14 @@ def run_sequence(ctx, ops, pairs, stream, dump_every=0, watch=(), probe=(), tag=
                 # excluded points: the dictionary keys stay unique and every stored object is known
                 keys = [k for k, _ in sut.dict_items()]
                 if len(set(keys)) != len(keys):
-                    ctx.fail("duplicate-key", {"history": history, "stream": stream}, "dictionary holds one key twice")
+                    ctx.fail("duplicate-key", {"history": [op_json(o) for o in history], "stream": stream}, "dictionary holds one key twice")
                 if isinstance(raw, BaseException) and type(raw).__name__ not in ("AttributeError", "KeyError", "SystemError", "TypeError", "IndexError"):
-                    ctx.fail("unexpected-exception", {"history": history, "stream": stream}, f"{op[0]} raised {type(raw).__name__}")
+                    ctx.fail("unexpected-exception", {"history": [op_json(o) for o in history], "stream": stream}, f"{op[0]} raised {type(raw).__name__}")
             if dump_every and (n + 1) % dump_every == 0:
                 local.append(("dump", sut.dump()))
         if oracle and (watch or probe):
             oracle.finish(probe)
-        if in_model:
+        if pairs is not None:
             local.append(("dump", sut.dump()))
             pairs.extend(local)
         return oracle or True
@@ -974,7 +1001,7 @@ def run_pairs(ctx, keys, pairs, todo, tag="keys:pair"):
     n = 0
     for k1, k2 in todo:
         for h in pair_histories(k1, k2):
-            ok = run_sequence(ctx, h, pairs, "ok", watch=[k for k in (k1, k2) if k not in FIELDS], tag=tag)
+            ok = run_sequence(ctx, h, pairs, "ok", watch=[k for k in (k1, k2) if k not in FIELDS], probe=[k for k in keys.partners.get(k1, [])[:6] if k not in FIELDS], tag=tag)
             assert ok
             n += 1
             ctx.case((tag, k1, k2, len(h)), sample={"class": tag, "keys": [k1, k2], "collide under": keys.pairs.get((k1, k2)) or keys.pairs.get((k2, k1))} if n == 1 else None)
@@ -1054,7 +1081,7 @@ def run_long(ctx, ops, pairs, watch, tag, keys=None):
         run_pairs(ctx, keys, pairs, todo, tag=tag + ":two-names")
     if len(ctx.failures) == before:
         first = sink.failures[0]
-        prefix = [op_unjson(x) for x in first["input"]["history"]]
+        prefix = [op_unjson(x) for x in first["input"]["history"]]  # the failing prefix, as operations
         named = [k for op in prefix[-1:] for k in named_keys(op)]
         small_watch = list(dict.fromkeys(named + list(watch)[:8]))
 
@@ -1154,7 +1181,7 @@ def run_random(ctx, length, pairs, stream, pool=DEFAULT_POOL, tag="random", watc
             op = random_op(ctx.rng, sut, stream, pool)
             if stream == "ok" and violates_pre(sut, op):
                 continue
-            history.append(op_json(op))
+            history.append(op)
             if oracle:
                 oracle.before(op)
             line, out, raw = sut.apply(op)
@@ -1167,7 +1194,7 @@ def run_random(ctx, length, pairs, stream, pool=DEFAULT_POOL, tag="random", watc
             else:
                 keys = [k for k, _ in sut.dict_items()]
                 if len(set(keys)) != len(keys):
-                    ctx.fail("duplicate-key", {"history": history, "stream": stream}, "dictionary holds one key twice")
+                    ctx.fail("duplicate-key", {"history": [op_json(o) for o in history], "stream": stream}, "dictionary holds one key twice")
             n += 1
             if n % 25 == 0:
                 local.append(("dump", sut.dump()))
@@ -1176,7 +1203,7 @@ def run_random(ctx, length, pairs, stream, pool=DEFAULT_POOL, tag="random", watc
         local.append(("dump", sut.dump()))
         if pairs is not None:
             pairs.extend(local)
-        ctx.case((tag, stream, tuple(map(str, history))), sample={"stream": stream, "class": tag, "length": length, "first_ops": history[:4], "len": len(sut.storage)} if length > 20 else None)
+        ctx.case((tag, stream, tuple(map(str, history))), sample={"stream": stream, "class": tag, "length": length, "first_ops": [op_json(o) for o in history[:4]], "len": len(sut.storage)} if length > 20 and len(ctx.samples) < 12 else None)
     finally:
         sut.close()
 
@@ -1548,6 +1575,15 @@ def _run(ctx):
         """boosted budgets (x4 source drift, x8 broken proof) are capped so that a boosted quick run stays within minutes"""
         return min(ctx.budget(q, t), cap if quick else cap * 20)
 
+    import time
+
+    t_last = [time.time()]
+
+    def mark(stream):
+        now = time.time()
+        ctx.hist[f"seconds:{stream}"] = round(ctx.hist.get(f"seconds:{stream}", 0) + now - t_last[0], 1)
+        t_last[0] = now
+
     pairs = []
     # ---- corpus
     for seq in CORPUS:
@@ -1565,6 +1601,7 @@ def _run(ctx):
     for fam in KEY_FAMILIES:
         run_pairs(ctx, keys, pairs, [(a, b) for a, b in itertools.combinations(fam, 2)][:: 1 if ctx.thorough() else 3], tag="keys:family-pair")
     flush(ctx, "storage.keys", pairs)
+    mark("keys:pairs")
     # ---- the sweep: every library name, its collision partners, and a sample of the rest of the universe, on one record
     first = list(dict.fromkeys(keys.base + [p for b in keys.base for p in keys.partners.get(b, [])]))
     first_set = set(first)
@@ -1573,6 +1610,7 @@ def _run(ctx):
     names = first[:nsweep] + rng.sample(rest, max(0, min(len(rest), nsweep - len(first[:nsweep]))))
     run_sweep(ctx, keys, names, pairs)
     flush(ctx, "storage.keys.sweep", pairs)
+    mark("keys:sweep")
     # ---- random histories over clusters of look-alike names, with special values
     for i in range(budget(150, 3000, 450)):
         cl = keys.cluster(rng) if i % 8 else list(rng.choice(KEY_FAMILIES))
@@ -1581,6 +1619,7 @@ def _run(ctx):
         if len(pairs) > 200000:
             flush(ctx, "storage.keys.cluster", pairs)
     flush(ctx, "storage.keys.cluster", pairs)
+    mark("keys:cluster")
     # ---- special values (in the model's alphabet: with the model; outside: the oracle alone)
     for i in range(budget(60, 1500, 180)):
         pool = {"addrs": DEFAULT_POOL["addrs"], "vals": [None, 0, "x"] + rng.sample(SPECIAL_VALUES, 6), "dyn": DEFAULT_POOL["dyn"]}
@@ -1597,6 +1636,7 @@ def _run(ctx):
     assert ok
     ctx.case(("addresses:all", len(ADDRESS_FAMILY)))
     flush(ctx, "storage.addresses", pairs)
+    mark("values+addresses")
     # ---- time passes (a day per reading of the clock) / the caller keeps no reference to the records
     with FastClock():
         for seq in CORPUS:
@@ -1607,6 +1647,7 @@ def _run(ctx):
         run_scale(ctx, "mixed", 300, ctx.seed, pairs, False, clock=True)
     flush(ctx, "storage.clock", pairs)
     run_unreferenced(ctx, 200 if quick else 3000)
+    mark("clock+unreferenced")
     # ---- wide records
     run_wide(ctx, pairs)
     flush(ctx, "storage.wide", pairs)
@@ -1622,6 +1663,7 @@ def _run(ctx):
     for shape, n, with_model in plan:
         failure = run_scale(ctx, shape, n, salt, pairs, with_model and not ctx.search_only and ctx.driver_ok)
         flush(ctx, f"storage.scale.{shape}", pairs)
+        mark(f"scale:{shape}:{n}")
         if failure:
             break  # one long failing input is enough
     # ---- exhaustive short histories
@@ -1643,6 +1685,7 @@ def _run(ctx):
         flush(ctx, f"storage.exhaustive.{name}", pairs)
         ctx.count(f"exhaustive:{name}:run", done)
         ctx.count(f"exhaustive:{name}:inapplicable-or-outside-preconditions", skipped)
+        mark(f"exhaustive:{name}")
     # ---- excluded points: model = code, dictionary keys unique
     crosslen = 5 if ctx.thorough() else 4
     done = 0
@@ -1656,6 +1699,7 @@ def _run(ctx):
                 flush(ctx, "storage.excluded-points", pairs)
     flush(ctx, "storage.excluded-points", pairs)
     ctx.count("exhaustive:cross:run", done)
+    mark("excluded-points")
     # ---- random histories
     nrand = budget(500, 10000, 1500)
     for i in range(nrand):
@@ -1667,6 +1711,7 @@ def _run(ctx):
         if len(pairs) > 200000:
             flush(ctx, "storage.random", pairs)
     flush(ctx, "storage.random", pairs)
+    mark("random")
     ctx.exhaustive = False
 
 
@@ -1727,7 +1772,7 @@ def _replay(obj):
     lines = []
     in_model = True
     try:
-        oracle = Oracle(c, sut, [op_json(o) for o in hist], inp.get("watch", ())) if inp.get("stream") == "ok" else None
+        oracle = Oracle(c, sut, list(hist), inp.get("watch", ())) if inp.get("stream") == "ok" else None
         for op in hist:
             if oracle:
                 oracle.before(op)
